@@ -129,3 +129,148 @@ def rule_debug_checks(ctx, R):
     else:
         # in assertion-off builds the regions are dead code behind a constant false
         R.ok("C19-R3", "debug-regions|off(%d)" % n_regions, "regions are behind `const false` in this configuration", nontrivial=False)
+
+
+# ----------------------------------------------------------------------------------
+# C03-R2: inventory of unchecked / unsafe-callee sites versus the reviewed table
+# ----------------------------------------------------------------------------------
+STD_UNCHECKED = (
+    "slice::get_unchecked", "slice::get_unchecked_mut", "Option::unwrap_unchecked", "Result::unwrap_unchecked", "hint::unreachable_unchecked", "hint::assert_unchecked",
+    "slice::from_raw_parts", "slice::from_raw_parts_mut", "ptr::read", "ptr::write", "ptr::copy", "ptr::copy_nonoverlapping", "ptr::drop_in_place",
+    "mut_ptr::add", "const_ptr::add", "mut_ptr::offset", "const_ptr::offset", "MaybeUninit::assume_init", "NonNull::new_unchecked",
+    "alloc::alloc", "alloc::realloc", "alloc::dealloc", "mem::transmute", "mem::zeroed", "MaybeUninit::assume_init_ref", "MaybeUninit::assume_init_mut",
+    "ptr::read_unaligned", "ptr::write_unaligned", "ptr::read_volatile", "ptr::write_volatile", "ptr::swap", "ptr::replace", "mem::transmute_copy",
+    "Vec::set_len", "Vec::from_raw_parts", "String::from_utf8_unchecked", "str::from_utf8_unchecked", "Box::from_raw", "Rc::from_raw", "Arc::from_raw",
+    "num::unchecked_add", "num::unchecked_sub", "num::unchecked_mul", "NonZero::new_unchecked", "Layout::from_size_align_unchecked",
+)
+
+
+def unchecked_sites(ctx):
+    """{(fn path, op): count} over every fn of gecs."""
+    import re
+    from .norm import cname as _cn
+    out = {}
+    for path, fn in sorted(ctx.gecs.fns.items()):
+        for b in fn.blocks:
+            for s in b["st"]:
+                if s["k"] == "assign" and s["rv"]["k"] == "cast" and s["rv"]["ck"] == "Transmute" and not s["rv"]["from"].startswith("*") and s["rv"]["ty"] != "usize":
+                    out[(path, "transmute")] = out.get((path, "transmute"), 0) + 1
+                # raw pointer dereference: a place `*p` where p is a raw pointer local
+                for pl in places_of(s):
+                    if pl["p"] and pl["p"][0] == "*" and fn.local_ty(pl["l"]).startswith(("*const ", "*mut ")):
+                        out[(path, "raw-deref")] = out.get((path, "raw-deref"), 0) + 1
+            t = b["t"]
+            if t["k"] != "call" or t["f"].get("indirect"):
+                continue
+            f = t["f"]
+            p = f["path"]
+            cn = _cn(p)
+            full = strip_generics(p)
+            op = None
+            for u in STD_UNCHECKED:
+                if cn == u or full.endswith("::" + u) or full.endswith(u):
+                    op = u
+                    break
+            if op is None:
+                local = ctx.gecs.lookup(f)
+                if local is not None and (local.sig() or {}).get("unsafe"):
+                    op = "unsafe fn " + local.short().split("::", 1)[-1] if "DataPtr" in local.path else "unsafe fn " + local.short().split("::")[-1]
+            if op is not None:
+                out[(path, op)] = out.get((path, op), 0) + 1
+    return out
+
+
+def places_of(s):
+    res = []
+    if s["k"] == "assign":
+        res.append(s["p"])
+        def walk(x):
+            if isinstance(x, dict):
+                if "l" in x and "p" in x and isinstance(x["p"], list):
+                    res.append(x)
+                for v in x.values():
+                    walk(v)
+            elif isinstance(x, list):
+                for v in x:
+                    walk(v)
+        walk(s["rv"])
+    return res
+
+
+def strip_type_args(p):
+    """remove every `<...>` that directly follows an identifier (type/fn generic args), keep `<T as Trait>` qualifiers"""
+    out = []
+    i = 0
+    n = len(p)
+    while i < n:
+        c = p[i]
+        if c == "<" and out and (out[-1].isalnum() or out[-1] == "_" or (len(out) >= 2 and out[-1] == ":" and out[-2] == ":")):
+            depth = 0
+            j = i
+            while j < n:
+                if p[j] == "<":
+                    depth += 1
+                elif p[j] == ">" and not (j > 0 and p[j - 1] == "-"):
+                    depth -= 1
+                    if depth == 0:
+                        break
+                j += 1
+            if out and out[-1] == ":" and len(out) >= 2 and out[-2] == ":":
+                out = out[:-2]
+            i = j + 1
+            continue
+        out.append(c)
+        i += 1
+    return "".join(out)
+
+
+def fam(path):
+    import re
+    p = strip_type_args(path)
+    p = re.sub(r"\b(Storage|Borrow|IterMut|Iter|Components|View|Slices)\d+\b", r"\1N", p)
+    p = re.sub(r"_(\d+)(::|$)", r"_I\2", p)
+    return p
+
+
+def arity_of(path):
+    import re
+    m = re.search(r"\b(?:Storage|Borrow|IterMut|Iter)(\d+)\b", strip_type_args(path))
+    return int(m.group(1)) if m else None
+
+
+def rule_unchecked_inventory(ctx, R):
+    import json
+    from .r_unwind import TABLES
+    try:
+        table = json.load(open(os.path.join(TABLES, "unchecked_sites.json")))["sites"]
+    except Exception as e:
+        R.fail("ANCHOR", "tables/unchecked_sites.json", "reviewed table of unchecked sites missing: %s" % e, None)
+        return
+    want = {}
+    for e in table:
+        want[(e["fn"], e["op"])] = e
+    got = unchecked_sites(ctx)
+    mode = "debug" if ctx.debug else "release"
+    seen_keys = set()
+    for (path, op), n in sorted(got.items()):
+        k = (fam(path), op)
+        seen_keys.add(k)
+        e = want.get(k)
+        N_ = arity_of(path)
+        fn = ctx.gecs.fns[path]
+        if e is None:
+            R.fail("C03-R2", "UNREVIEWED-UNSAFE|%s|%s" % k, "%s performs %d unchecked operation(s) `%s` that are not in the reviewed table (tables/unchecked_sites.json): new unchecked code is never silently trusted" % (path, n, op), where_of(fn), fn=fn.key)
+            continue
+        a, b = e[mode]
+        if ctx.has("events"):
+            a, b = a + e.get("events_extra", [0, 0])[0], b + e.get("events_extra", [0, 0])[1]
+        expect = a + b * (N_ or 0)
+        R.check(n == expect, "C03-R2", "%s|%s" % k, "%d reviewed site(s): %s" % (expect, e.get("discharge", "")),
+                "%s has %d site(s) of `%s`, reviewed: %d (%s). An added unchecked access needs review." % (path, n, op, expect, e.get("discharge", "")), where_of(fn), fn=fn.key)
+    for k, e in sorted(want.items()):
+        if k not in seen_keys and (e[mode][0] or e[mode][1]):
+            if k[0].startswith("archetype::storage::StorageN") or True:
+                R.note("reviewed unchecked site %s|%s no longer exists (stale table entry)" % k)
+
+
+import os  # noqa: E402
